@@ -2,6 +2,8 @@ package checks
 
 import (
 	"fmt"
+	"regexp"
+	"runtime/debug"
 	"strings"
 	"time"
 
@@ -280,6 +282,59 @@ func c18One(c *Ctx, idx int, local map[string]int64) {
 	local["ok"]++
 }
 
+// c18AfterRefused: a call that SetTimeRange refuses (a hand-built condition
+// whose printed form does not parse, short and several KB long) and directly
+// after it, on the same goroutine and without a collection in between, an
+// ordinary statement: it gets its own window and keeps its own predicates,
+// exactly as when the same call is made on its own.
+func c18AfterRefused(c *Ctx) {
+	r := c.R
+	w0, w1 := time.Unix(0, 946684800000000000).UTC(), time.Unix(0, 946688400000000000).UTC()
+	texts := []string{"SELECT mean(v) FROM cpu WHERE host = 'a' GROUP BY time(1m)", "SELECT mean(v) FROM cpu WHERE (host = 'a' OR region = 'eu') AND time > now() - 1h GROUP BY time(1m)", "SELECT mean(v) FROM cpu GROUP BY time(1m)"}
+	alone := map[string]string{}
+	for _, t := range texts {
+		st, _ := influxql.ParseStatement(t)
+		sel := st.(*influxql.SelectStatement)
+		if err := sel.SetTimeRange(w0, w1); err != nil {
+			r.Violation("SetTimeRange-error", map[string]interface{}{"idx": -1, "input": t, "why": err.Error()})
+			return
+		}
+		alone[t] = sel.String()
+	}
+	for _, n := range []int{1, 40, 400, 3000} {
+		var cond influxql.Expr = &influxql.BinaryExpr{Op: influxql.EQ, LHS: &influxql.VarRef{Val: "h"}, RHS: &influxql.RegexLiteral{Val: regexp.MustCompile("not-after-equals")}}
+		for i := 0; i < n; i++ {
+			cond = &influxql.BinaryExpr{Op: influxql.AND, LHS: cond, RHS: &influxql.BinaryExpr{Op: influxql.EQ, LHS: &influxql.VarRef{Val: fmt.Sprintf("t%04d", i)}, RHS: &influxql.StringLiteral{Val: "v"}}}
+		}
+		for _, t := range texts {
+			bad := &influxql.SelectStatement{Fields: influxql.Fields{{Expr: &influxql.VarRef{Val: "v"}}}, Sources: influxql.Sources{&influxql.Measurement{Name: "cpu"}}, Condition: influxql.CloneExpr(cond)}
+			st, _ := influxql.ParseStatement(t)
+			sel := st.(*influxql.SelectStatement)
+			var refused, err error
+			old := debug.SetGCPercent(-1)
+			p, pv, stk := mon.Try(func() {
+				refused = bad.SetTimeRange(w0, w1)
+				err = sel.SetTimeRange(w0, w1)
+			})
+			debug.SetGCPercent(old)
+			if p {
+				r.Violation("panic-in-SetTimeRange", map[string]interface{}{"idx": -1, "input": t, "why": fmt.Sprint(pv), "stack": stk})
+				return
+			}
+			r.Eval(1)
+			if refused == nil {
+				r.Count("after-refused.first-call-was-accepted(skipped)", 1)
+				continue
+			}
+			if got := sel.String(); err != nil || got != alone[t] {
+				r.Violation("window-not-applied-exactly", map[string]interface{}{"idx": -1, "input": t, "why": fmt.Sprintf("called directly after a call that was refused (a condition of %d predicates whose printed form does not parse), the statement becomes %q (err %v); on its own the same call makes it %q", n+1, trunc(got, 300), err, alone[t])})
+				return
+			}
+			r.Count("after-refused.ordinary-call-unaffected", 1)
+		}
+	}
+}
+
 func checkC18(c *Ctx) (string, bool, []string) {
 	r := c.R
 	rule := "initial conditions: none, conjunctions of 0-3 time bounds (time on either side, any letter case, quoted, with a ::type cast, integer / RFC3339 / date / date-time / duration / now()-relative) with 0-3 other sub-trees (AND, OR, parentheses), or a top-level OR of non-time predicates; sequences of 1-8 windows (passed as time values in UTC, named zones and zones whose offset has seconds; ascending continuous-query style incl. 1ns and 250ms buckets, random, repeated, empty and sub-second, at the representable extremes). A third of the statements carry a TZ clause and are observed alternately without a valuer and with a valuer reporting the statement zone. After every SetTimeRange the statement is observed through ConditionExpr: exact range, exactly two time comparisons, constant node count from the first call on, and agreement with (start <= t < end) AND non-time-part on every probe point. Non-trivial = history of at least one call; distinct by (statement, windows)."
@@ -289,6 +344,7 @@ func checkC18(c *Ctx) (string, bool, []string) {
 		return rule, false, assume
 	}
 	n := c.N(10000, 500000)
+	c18AfterRefused(c)
 	mon.Parallel(n, c.Workers, func(i int) {
 		local := map[string]int64{}
 		c18One(c, i, local)
